@@ -211,20 +211,30 @@ def match_known(known, prop, sig):
     return None
 
 
+def _outroot():
+    """Evidence and replay files of a run against /repo itself live in /verif; a run against another tree
+    (VERIF_REPO=<scratch worktree>, used for seeded changes) must not overwrite them."""
+    return VERIF if os.path.realpath(REPO) == "/repo" else os.path.join(WORK, "other-tree")
+
+
+def evidence_path(prop):
+    return os.path.join(_outroot(), "evidence", prop + ".json")
+
+
 def write_evidence(prop, tier, seed, level, coverage, assumptions, wall, violations, extra=None):
-    os.makedirs(os.path.join(VERIF, "evidence"), exist_ok=True)
+    os.makedirs(os.path.join(_outroot(), "evidence"), exist_ok=True)
     ev = dict(property_id=prop, tier=tier, seed=int(seed), level=level, coverage=coverage,
               assumptions=assumptions, wall_s=round(wall, 2), violations=violations)
     if extra:
         ev.update(extra)
-    p = os.path.join(VERIF, "evidence", prop + ".json")
+    p = os.path.join(_outroot(), "evidence", prop + ".json")
     tmp = p + ".tmp"
     json.dump(ev, open(tmp, "w"), indent=1, sort_keys=True)
     os.replace(tmp, p)
 
 
 def write_replay(prop, name, obj):
-    d = os.path.join(VERIF, "replays", prop)
+    d = os.path.join(_outroot(), "replays", prop)
     os.makedirs(d, exist_ok=True)
     h = hashlib.sha1(json.dumps(obj, sort_keys=True).encode()).hexdigest()[:10]
     p = os.path.join(d, "%s-%s.json" % (re.sub(r"[^A-Za-z0-9_.-]", "_", name)[:60], h))
